@@ -20,12 +20,14 @@ META = dict(
           "processes (bursts, idle gaps, overload, 1-6 concurrent caller tasks using consume()+sleep or wait()); "
           "a run is non-trivial if the bucket went into debt and later refilled to capacity; distinct by "
           "(config, caller count, sequence of burst sizes and gap classes)"),
-    components=dict(real=["basana.core.token_bucket.TokenBucketLimiter"],
-                    simulated=["caller tasks", "time.time (virtual wall clock)", "wall-clock step faults"]),
+    components=dict(real=["basana.core.token_bucket.TokenBucketLimiter", "binance.client.APIClient / bitstamp.client.APIClient "
+                          "throttled through a shared bucket (20% of runs, zero-latency simulated network)"],
+                    simulated=["caller tasks", "time.time (virtual wall clock)", "wall-clock step faults", "REST peers"]),
     assumptions=["timers fire exactly on time in this engine (callers wait exactly the returned time)",
                  "rate bound and exact-delay clauses are asserted only in runs without wall-clock steps",
                  "float tolerance 1e-9 relative on waits"],
-    probes_expected=["debt_then_full", "burst_over_capacity", "idle_gap_refill_capped", "initial_gt_capacity"],
+    probes_expected=["debt_then_full", "burst_over_capacity", "idle_gap_refill_capped", "initial_gt_capacity",
+                     "client_requests_on_wire", "client_throttled"],
     states_measure="distinct (tokens level bucket, in-debt flag, pending waiters) triples seen after a consume",
 )
 
@@ -34,6 +36,109 @@ PERIOD = [1, 2, 10, 60]
 
 
 def run(tape, prop, tier):
+    if tape.chance(0.2):
+        return run_clients(tape, prop, tier)
+    return run_bucket(tape, prop, tier)
+
+
+def run_clients(tape, prop, tier):
+    """The limiter as its users drive it: the real Binance and Bitstamp REST clients share one bucket and send over a
+    zero-latency simulated network, so the first byte of each request is on the wire exactly when the client has
+    finished waiting. The rate bound is then checked on what the peer sees."""
+    import random
+    res = Result()
+    tpp = tape.choice([1, 2, 5, 10, F(5, 2)])
+    period = tape.choice([1, 2, 10])
+    initial = tape.choice([0, 1, int(tpp), int(tpp) + 3])
+    ncalls = 2 + tape.draw(25)
+    starts = [tape.choice([0.0, 0.0, 0.0, 0.1, 1.0, float(period) * 3]) for _ in range(ncalls)]
+    which = [tape.draw(4) for _ in range(ncalls)]
+    res.sample = dict(kind="clients", tokens_per_period=str(tpp), period=period, initial=initial, calls=ncalls,
+                      start_delays=starts[:10])
+    cap = max(F(tpp), F(initial))
+    rate = F(tpp) / period
+    first = []
+    waits = []
+
+    async def main(loop):
+        import aiohttp
+        from aiohttp import web
+        from basana.core import token_bucket
+        from basana.external.binance import client as bcli
+        from basana.external.bitstamp import client as scli
+        from ..net import SimNet, SimConnector
+
+        async def handler(request):
+            await request.read()
+            return web.json_response({"ok": True, "bids": [], "asks": [], "lastUpdateId": 1})
+        server = web.Server(handler)
+        net = SimNet(loop, random.Random(1), {"binance.sim": server, "bitstamp.sim": server}, min_latency=0.0, jitter=0.0)
+        sess = aiohttp.ClientSession(connector=SimConnector(net))
+        tb = token_bucket.TokenBucketLimiter(float(tpp) if isinstance(tpp, F) else tpp, period, initial)
+        real = tb.consume
+
+        def spy():
+            w = real()
+            waits.append(w)
+            if not (w >= 0):
+                res.viol(PROP, "negative-wait", "consume() returned a negative time", f"consume() returned {w!r}")
+            return w
+        tb.consume = spy
+        b = bcli.APIClient("k", "s", session=sess, tb=tb, config_overrides={"api": {"http": {"base_url": "http://binance.sim/"}}})
+        s_ = scli.APIClient("k", "s", session=sess, tb=tb, config_overrides={"api": {"http": {"base_url": "http://bitstamp.sim/"}}})
+
+        async def one(i):
+            await asyncio.sleep(starts[i])
+            try:
+                if which[i] == 0:
+                    await b.get_order_book("BTCUSDT")
+                elif which[i] == 1:
+                    await s_.get_ticker("btcusd")
+                elif which[i] == 2:
+                    await b.spot_account.get_account_information()
+                else:
+                    await s_.get_account_balances()
+            except Exception:
+                pass
+        await asyncio.gather(*[one(i) for i in range(ncalls)])
+        await sess.close()
+        await server.shutdown(0.5)
+        for conn in net.conns:
+            # one HTTP request = bytes up to the blank line; requests on a kept-alive connection start with a method
+            for side, t, data in conn.log:
+                if side == "c" and data[:4] in (b"GET ", b"POST", b"PUT ", b"DELE"):
+                    first.append(t)
+        return loop
+    loop = run_sim(main, salt=0, max_steps=400_000)
+    res.vtime = loop.time()
+    res.steps = loop.steps
+    s = sorted(first)
+    res.stats["client_requests"] += len(s)
+    res.probes["client_requests_on_wire"] += 1 if s else 0
+    if len(s) != ncalls:
+        res.viol(PROP, "request-missing", "a throttled client call sent no request", f"{len(s)} requests on the wire for {ncalls} calls")
+    n = len(s)
+    for i in range(n):
+        bad = False
+        for j in range(i, n):
+            cnt = j - i + 1
+            if cnt > float(cap) + float(rate) * (s[j] - s[i] + 1e-6) + 1:
+                res.viol(PROP, "rate-bound", "more requests on the wire in a window than capacity + rate*L + 1",
+                         f"{cnt} requests sent by the Binance/Bitstamp clients in [{s[i]}, {s[j]}] > {float(cap)} + "
+                         f"{float(rate)}*{s[j] - s[i]} + 1 (tokens/period={tpp}, period={period}, initial={initial})")
+                bad = True
+                break
+        if bad:
+            break
+    if any(w > 0 for w in waits):
+        res.probes["client_throttled"] += 1
+        res.nontrivial = True
+    res.sig = digest_of(("clients", str(tpp), period, initial, ncalls, tuple(starts), tuple(which)))
+    res.digest = digest_of((s, waits))
+    return res
+
+
+def run_bucket(tape, prop, tier):
     res = Result()
     tpp = tape.choice(TPP)
     period = tape.choice(PERIOD)
